@@ -83,7 +83,7 @@ CLAIMED["C06"] = dict(
           "signatures reject). Each vector is replayed with real keys on verify_data_signature, AccountTransaction and AccountTransactionV1 verification and AccountKeys signing, and authorised "
           "vectors are perturbed field by field (nonce, energy, expiry, sender, payload, key set, v0 digest on a v1 transaction). TxEnvelope.tla gives the serialised header and payload bytes, declared "
           "size and energy formula for four payload kinds as byte terms; construct::* output, sign digest and block-item hash are compared byte for byte. UpdateKeys.tla decides find_authorized_keys."),
-    note=("Bounded: <= 3 credentials x <= 3 keys, <= 6 signatures, thresholds {1,2,3,255}; payload kinds transfer, transfer with memo, register data, scheduled transfer. ed25519-dalek is trusted for single "
+    note=("The envelope specification covers eleven payload kinds of construct::* (transfer, memo, register data, schedule, deploy / init / update contract, remove baker, stake, restake, transfer to encrypted) and the v1 builder state machine. " "Bounded: <= 3 credentials x <= 3 keys, <= 6 signatures, thresholds {1,2,3,255}; payload kinds transfer, transfer with memo, register data, scheduled transfer. ed25519-dalek is trusted for single "
           "signatures. Chain-side verification of update instructions is in the Haskell node and not bound."),
     ref="4 C06")
 
